@@ -93,6 +93,17 @@ Definition go_big_uint64_bytes (n : N) : bytes := N_to_be n.
    equivalent to an empty slice." *)
 Definition bytes_equal (a b : bytes) : bool := beqb a b.
 
+(* bytes.HasPrefix(s, prefix): "reports whether the byte slice s begins with prefix", i.e. len(prefix) <= len(s) and
+   s[:len(prefix)] equals prefix; a nil argument is an empty slice *)
+Definition bytes_has_prefix (s p : bytes) : bool :=
+  if (length p <=? length s)%nat then beqb (firstn (length p) s) p else false.
+(* bytes.HasSuffix(s, suffix): "reports whether the byte slice s ends with suffix", i.e. len(suffix) <= len(s) and
+   s[len(s)-len(suffix):] equals suffix *)
+Definition bytes_has_suffix (s p : bytes) : bool :=
+  if (length p <=? length s)%nat then beqb (skipn (length s - length p) s) p else false.
+(* bytes.Compare(a, b) == 0 is translated as bytes_equal a b ("The result will be 0 if a == b ... A nil argument is
+   equivalent to an empty slice"); no other use of bytes.Compare is translated *)
+
 (* ---- pointers, errors ---- *)
 (* p.f / *p: "if p is nil, a run-time panic occurs" *)
 Definition go_deref {A} (p : option A) : option A := p.
